@@ -4,8 +4,13 @@ from . import core
 SHORTS = ["a", "rhel", "my-prod", "a-1", "x-y-z", "fast"]
 VERSIONS = ["1", "7.1", "10.0.3", "rawhide", "fast", "eus", "20150522", "Rawhide", "ELN.1"]
 REPS = [{"l": "a", "U": "A", "d": "1", "-": "-", ".": ".", "@": "@", "o": "_"},
-        {"l": "z", "U": "Q", "d": "0", "-": "-", ".": ".", "@": "@", "o": " "},
-        {"l": "m", "U": "Z", "d": "9", "-": "-", ".": ".", "@": "@", "o": "/"}]
+        # "other" is everything else: a line feed (which '.' and '$' of a pattern treat specially) ...
+        {"l": "z", "U": "Q", "d": "0", "-": "-", ".": ".", "@": "@", "o": "\n"},
+        {"l": "m", "U": "Z", "d": "9", "-": "-", ".": ".", "@": "@", "o": "/"},
+        # ... and letters / digits outside ASCII (which isalpha(), islower(), \d and \w take for letters and digits)
+        {"l": "q", "U": "R", "d": "5", "-": "-", ".": ".", "@": "@", "o": "\u00e9"},
+        {"l": "b", "U": "B", "d": "2", "-": "-", ".": ".", "@": "@", "o": "\uff11"},
+        {"l": "c", "U": "C", "d": "3", "-": "-", ".": ".", "@": "@", "o": " "}]
 
 
 def chars(s):
@@ -102,7 +107,7 @@ def run(ctx):
     mod, files, cfg = setup("words", n, ["CONSTRAINT Emit"])
     ctx.require_ok(ctx.tlc(mod, cfg_text=cfg, extra_files=files, on_emit=words.append, constants={"Mode": "words", "N": n}))
     for w in words:
-        w["nrep"] = 2 if ctx.quick else 3
+        w["nrep"] = 4 if ctx.quick else 6
     ids = []
     mode = "ids1" if ctx.quick else "ids"
     mod, files, cfg = setup(mode, 0, ["CONSTRAINT Emit", "INVARIANT ImplPrediction"])
